@@ -184,6 +184,7 @@ static void gen_maketable(const GenCtx &ctx, Case &c, int) {
   c.sets("M.pat", g::wpick<std::string>({{6, "dense"}, {1, "sp3"}, {1, "ones"}, {1, "ident"}}));
   c.setu("M.seed", g::seed());
   c.setu("T.jseed", g::seed());
+  g::place(c, "M", 25);  // the elimination hands in the caller's matrix, which may be a window with foreign bits right of it
 }
 static Verdict exec_maketable(const Case &c) {
   Ex x(c);
